@@ -211,3 +211,22 @@
 #endif
 
 // clang-format on
+
+///////////////////////////////////////////////////////////////////////////////
+// Verification hook points. Compiled in only with -DPIKA_VERIF; without the
+// guard every PIKA_VERIF_POINT expands to nothing.
+#if defined(PIKA_VERIF)
+#include <atomic>
+#include <cstdint>
+namespace pika::verif {
+    using hook_type = void (*)(int site, void const* obj, std::uint64_t a, std::uint64_t b);
+    PIKA_EXPORT extern std::atomic<hook_type> hook;
+    inline void point(int site, void const* obj = nullptr, std::uint64_t a = 0, std::uint64_t b = 0)
+    {
+        if (hook_type h = hook.load(std::memory_order_relaxed)) h(site, obj, a, b);
+    }
+}    // namespace pika::verif
+#define PIKA_VERIF_POINT(...) ::pika::verif::point(__VA_ARGS__)
+#else
+#define PIKA_VERIF_POINT(...) ((void) 0)
+#endif
